@@ -505,6 +505,25 @@ func finish(p *Plan, prop, tier string, seed uint64, total *Stats, viols []*Trac
 		}
 		fmt.Printf("VIOLATION property=%s replay=%s\n", prop, path)
 		fmt.Printf("  signature: %s\n  %s\n", t.Sig, t.What)
+		// the replay file must reproduce the violation in a fresh process
+		if nv <= 4 && os.Getenv("VERIF_NO_REPLAY_VERIFY") == "" {
+			self, _ := os.Executable()
+			cmd := exec.Command(self, "-replay", path, "-prop", prop)
+			cmd.Env = os.Environ()
+			ob, err := cmd.CombinedOutput()
+			code := 0
+			if ee, ok := err.(*exec.ExitError); ok {
+				code = ee.ExitCode()
+			}
+			switch {
+			case code == 1 && strings.Contains(string(ob), "signature: "+t.Sig):
+				fmt.Printf("  replay verified in a fresh process (same signature)\n")
+			case code == 1:
+				fmt.Printf("  replay in a fresh process reports a violation with another signature:\n%s\n", indent(tail(string(ob), 600)))
+			default:
+				fmt.Printf("  WARNING: replay in a fresh process did not reproduce (exit %d):\n%s\n", code, indent(tail(string(ob), 600)))
+			}
+		}
 	}
 	if err := writeEvidence(p, prop, tier, seed, total, nv, sigs, zero, wall); err != nil {
 		fmt.Fprintln(os.Stderr, "harness: evidence:", err)
@@ -635,4 +654,9 @@ func hashInts(xs []int) string {
 		h.Write([]byte{byte(x), byte(x >> 8)})
 	}
 	return fmt.Sprintf("%016x", h.Sum64())
+}
+
+
+func indent(s string) string {
+	return "    " + strings.ReplaceAll(strings.TrimSpace(s), "\n", "\n    ")
 }
